@@ -629,6 +629,9 @@ def h_pi_vec_one_iteration(B, Sn, An, am, pol_index, tseed=0):
                 rows.append(S.eq(P[b, s, a], S.const(Fraction(1, len(best))) if a in best else 0))
     S.check('pi_vec:returned-policy-is-uniform-over-argmax-or-unchanged', S.Or(
         S.And(rows), S.And([S.eq(P[b, s, a], P0[b][s][a]) for b in range(B) for s in range(Sn) for a in range(An)])))
+    # whichever exit the loop takes (policy stable, or iteration cap), the returned policy is the greedy one for the evaluation of the policy it started
+    # the iteration with: a stable policy IS its own greedy policy.  (An exit that returns the evaluated policy unimproved would pass the clause above.)
+    S.check('pi_vec:returned-policy-is-uniform-over-argmax-of-the-evaluated-policy(also-when-it-is-returned-unchanged)', S.And(rows))
     S.check('mustfail:Q-ignores-discount', S.And([S.eq(Q[b, s, a], SAR[b][s][a]) for b in range(B) for s in range(Sn) for a in range(An) if am[b, s, a]]))
 
 
@@ -716,7 +719,28 @@ def rt_end_to_end(seed, n):
                     continue       # F12a is decided (and reported as known finding) by the symbolic tasks
                 out.append(dict(name='rt:' + c['name'], ok=c['status'] == 'proved', detail=str(c.get('detail'))[:800],
                                 witness=dict(skel=sk.name, gamma=g, inputs=rp.get('inputs'))))
+    # a tie at the start state that becomes visible only after the policy at a DOWNSTREAM state has been improved (start-a->mid-good/bad->end,
+    # start-b->alt-go->end): the policy that is evaluated last already has optimal values but not yet the full optimal support
+    for g, (ra, rb, rgood, rbad, rgo) in ((0.5, (-1, -1, -1, -3, -1)), (1.0, (-1, -2, -2, -5, -1)), (0.9, (0, 0, -1, -2, -1))):
+        model = {'tol': 1e-9, 'm0_R_start_a_mid': ra, 'm0_R_start_b_alt': rb, 'm0_R_mid_good_end': rgood, 'm0_R_mid_bad_end': rbad, 'm0_R_alt_go_end': rgo,
+                 'm0_R_end_stay_end': 0, 'm_R_start_a_mid': ra, 'm_R_start_b_alt': rb, 'm_R_mid_good_end': rgood, 'm_R_mid_bad_end': rbad, 'm_R_alt_go_end': rgo,
+                 'm_R_end_stay_end': 0}
+        for h, args in ((h_plan_vec, (LATE_TIE, g, False, 100000, 7)), (h_plan_dict, (LATE_TIE, g, False, 100000, 7)), (h_plan_pi, ([LATE_TIE], g, False, 7))):
+            rp = S.run_concrete(h, args, model)
+            used = rp.get('inputs') or {}
+            out.append(dict(name='rt:late-tie:harness-reads-the-scripted-rewards', ok=any(k.endswith('R_mid_bad_end') and float(v) == rbad for k, v in used.items()),
+                            witness=dict(inputs=used)))
+            for c in rp['checks']:
+                if 'next-to-never-absorbing' in c['name']:
+                    continue
+                out.append(dict(name='rt:' + c['name'], ok=c['status'] == 'proved', detail=str(c.get('detail'))[:800],
+                                witness=dict(skel=LATE_TIE.name, gamma=g, inputs=rp.get('inputs'))))
     return out
+
+
+LATE_TIE = M.Skel('s4-late-tie', ['start', 'mid', 'alt', 'end'], {'start': ('a', 'b'), 'mid': ('good', 'bad'), 'alt': ('go',), 'end': ('stay',)},
+                  {('start', 'a'): ('mid',), ('start', 'b'): ('alt',), ('mid', 'good'): ('end',), ('mid', 'bad'): ('end',), ('alt', 'go'): ('end',),
+                   ('end', 'stay'): ('end',)}, absorbing=['end'], init=['start'])
 
 
 # ---------------------------------------------------------------------------------------------------
